@@ -87,7 +87,9 @@ example : (match checkedDoc (nodeText "label".toList "<b> & ]]> \r 😀".toList)
 
 /-! ## 3. the mixed channel: `insert_output_values` + `node(tag, …, toParseString=…)` -/
 
-/-- the guard of the modelled fragment: `replace_with_output` (instance() expressions) is not entered -/
+/-- the cell holds no instance() expression: its escaped text is short or does not contain `instance(`
+    (then `replace_with_output` is the identity: `Chan.replaceWithOutput_noInstance`).  Cells WITH such
+    expressions are inside the model too; what the code does with them is pinned by the witnesses of section 7. -/
 def NoInstanceExpr (text : Str) : Prop :=
   (9 < (escText text).length && isInfix "instance(".toList (escText text)) = false
 
@@ -102,8 +104,7 @@ theorem insert_no_ref (refs : List (Str × Str)) (s : Str) (h : hasDollarBrace s
       have := SubTo.text (SubTo.nil refs) (by simp) s h
       simp only [List.append_nil] at this
       exact this _ (by omega)
-    unfold NoInstanceExpr at hi
-    simp only [hd, if_false, hi, Bool.false_eq_true]
+    simp only [hd, if_false, replaceWithOutput_noInstance refs (escText s) hi, finishInsert]
     split <;> simp_all
 
 /-- … so the mixed channel is the plain text channel for such cells, and `text_channel` applies -/
@@ -182,8 +183,7 @@ theorem insert_refs (refs : List (Str × Str)) (c : Cell) (items : List (Str × 
     rw [heq] at hmem
     exact escText_no_lt _ hmem
   unfold insertOutputValues
-  unfold NoInstanceExpr at hi
-  simp only [hne, if_false, hi, Bool.false_eq_true, hbrace, if_true]
+  simp only [hne, if_false, replaceWithOutput_noInstance refs (escText c.text) hi, finishInsert, hbrace, if_true]
   rw [hsub']
   simp [hneq]
 
@@ -417,11 +417,9 @@ example : (match mixedChannel exRefs "label".toList ['a', Char.ofNat 1, ' ', '$'
     | .reparseError => true | _ => false) = true := by decide +kernel
 -- … and a writer without the check would produce a document the reader rejects:
 example : parseDoc (renderDoc false (nodeText "label".toList ['a', Char.ofNat 1, 'b'])) = none := by decide +kernel
--- an unknown name is an error, an instance() expression is outside the modelled fragment:
+-- an unknown name is an error:
 example : (match mixedChannel exRefs "label".toList "x ${zz}".toList with | .pyxformError => true | _ => false) = true := by
   decide +kernel
-example : (match mixedChannel exRefs "label".toList "instance('l')/root/item[a = ${a}]/label".toList with
-    | .unsupported _ => true | _ => false) = true := by decide +kernel
 -- a `last-saved#` reference is handled by the model (correspondence) but excluded by `NameOk`:
 example : ¬ NameOk "last-saved#a".toList := by decide
 
